@@ -57,12 +57,11 @@ Definition prop_C31 (i o : val) : bool :=
   end.
 Definition kf_C31 (i : val) : Z := 0.
 
-(* well-formed inputs covered by the central theorem: default string limit (M = 0) and, when an emit budget is set,
-   inputs the reference accepts.  The other generated inputs are checked (agree/prop) but not covered by it. *)
+(* well-formed inputs covered by the central theorem: default string limit (M = 0), any emit budget.  Inputs with a
+   string limit are generated and checked (agree/prop) but not covered by it. *)
 Definition wf_C31 (i : val) : bool :=
   match decode_input i with
   | Some (mx, M, k, chunks) =>
     (0 <=? mx) && (M =? 0) && forallb wf_bytes chunks
-    && ((k <? 0) || match rfc_decode mx (concat chunks) with Some _ => true | None => false end)
   | None => false
   end.
